@@ -10,10 +10,12 @@ EXTENDS FetchTree, Json, IOUtils
 CONSTANTS MaxF, OrdF
 Shapes == ndJsonDeserialize(IOEnv.SHAPES)
 Kinds == {"Transport", "Non2xxNonJSON", "EmptyBody", "NonJSON", "ErrorsNoData", "DataNull", "WrongEntityCount",
-          "PartialData", "Non2xxJSON"}
+          "PartialData", "Non2xxJSON", "RateLimited"}
 
-VARIABLES si, fault, order
-gvars == <<si, fault, order>>
+\* second = what the SECOND request on the same gateway is: the same operation again, or another operation of the menu
+\* that shares a subgraph request with it (chosen by the harness; only generated for small F)
+VARIABLES si, fault, order, second
+gvars == <<si, fault, order, second>>
 
 N(i) == Shapes[i].n
 F(fl, n) == {f \in 1..n : fl[f] # "ok"}
@@ -27,6 +29,7 @@ Assignments(i) ==
 GenInit == /\ si \in 1..Len(Shapes)
            /\ fault \in Assignments(si)
            /\ order = <<>>
+           /\ second \in IF Cardinality(F(fault, N(si))) <= 1 /\ Shapes[si].partner = 1 THEN {"same", "other"} ELSE {"same"}
 Placed == {order[j] : j \in DOMAIN order}
 Before == Prec(Shapes[si].tree)
 Ready == {f \in (1..N(si)) \ Placed : \A g \in 1..N(si) : <<g, f>> \in Before => g \in Placed}
@@ -36,9 +39,9 @@ Pick == IF Cardinality(Faulty) <= OrdF /\ Cardinality(Faulty) < N(si) THEN Ready
         ELSE IF Ready \cap Faulty # {} THEN {Min(Ready \cap Faulty)} ELSE {Min(Ready)}
 GenNext == /\ Ready # {}
            /\ \E f \in Pick : order' = Append(order, f)
-           /\ UNCHANGED <<si, fault>>
+           /\ UNCHANGED <<si, fault, second>>
 GenSpec == GenInit /\ [][GenNext]_gvars
 Emit == IF Len(order) = N(si)
-        THEN PrintT(ToJson([op |-> Shapes[si].op, fault |-> fault, order |-> order]))
+        THEN PrintT(ToJson([op |-> Shapes[si].op, fault |-> fault, order |-> order, second |-> second]))
         ELSE TRUE
 =============================================================================
